@@ -198,8 +198,8 @@ def random_cfg(rng: random.Random, d=None, options=True):
     elif mode == 'signature':
         cfg = dict(signature=sig)
     else:
-        # (custom bases must use decimal digits as generator names: the constructor reads int(min(names)))
-        cfg = dict(p=p, q=q, r=r, basis=random_basis((p, q, r), rng, start_index=rng.choice([s for s in (0, 1, 1, 2, 5) if s + d - 1 <= 9])))
+        # (hex-letter generator names in custom bases are accepted since the fix 1831c58 of /repo)
+        cfg = dict(p=p, q=q, r=r, basis=random_basis((p, q, r), rng, start_index=rng.choice([s for s in (0, 1, 1, 2, 5, 9, 10, 12) if s + d - 1 <= 15])))
     if mode != 'basis' and rng.random() < 0.4:
         cfg['start_index'] = rng.choice([s for s in (0, 1, 2, 5, 10, 11, 12) if s + d - 1 <= 15])
     if options:
